@@ -77,7 +77,7 @@ def gen_cases(tier, seed):
         for gz in (False, True):
             for op in ("store_chunk_new", "store_chunk_overwrite", "store_chunk_refused",
                        "fetch_chunk", "fetch_chunk_missing", "store_file", "fetch_file",
-                       "file_exists", "file_exists_missing"):
+                       "file_exists", "file_exists_missing", "file_exists_gz"):
                 cases.append({"kind": "file", "flat": flat, "gzip": gz, "op": op,
                               "encoding": "raw"})
             for enc in ("raw", "compressed_segmentation"):
@@ -157,6 +157,8 @@ class Scenario:
                     self.model[("chunk", "k", c)] = a
                 self.acc.store_file("meta/extra.json", b'{"a":1}', mime_type="application/json")
                 self.model[("file", "meta/extra.json")] = b'{"a":1}'
+                self.acc.store_file("mesh/blob", b"BLOB" * 50)    # gets a .gz suffix with gzip
+                self.model[("file", "mesh/blob")] = b"BLOB" * 50
         else:
             spec = {"@type": "neuroglancer_uint64_sharded_v1", "hash": "identity",
                     "minishard_bits": 1, "shard_bits": 0, "preshift_bits": 0,
@@ -220,6 +222,8 @@ class Scenario:
                 return self.acc.file_exists("info")
             if op == "file_exists_missing":
                 return self.acc.file_exists("nothing/here")
+            if op == "file_exists_gz":
+                return self.acc.file_exists("mesh/blob")
             if op == "create+write":
                 pio = precomputed_io.get_IO_for_new_dataset(self.info, self.acc)
                 self.pending[("file", "info")] = None
